@@ -450,6 +450,143 @@ async fn run_spec(spec: &Spec) -> Out {
 	out
 }
 
+// ---------------------------------------------------------------------------------------------------------------
+// The real WebSocket transport (jsonrpsee-client-transport over an in-memory duplex) against a raw soketto server
+// peer that misbehaves at the WebSocket level.
+
+#[derive(Debug, Clone, Copy, PartialEq, Eq, Hash)]
+enum WsFault {
+	CloseFrame,
+	AbruptDrop,
+	BinaryGarbage,
+	TextNotJson,
+	UnknownId,
+	OversizedFrame,
+	HalfFrameThenDrop,
+}
+const WS_FAULTS: [WsFault; 7] =
+	[WsFault::CloseFrame, WsFault::AbruptDrop, WsFault::BinaryGarbage, WsFault::TextNotJson, WsFault::UnknownId, WsFault::OversizedFrame, WsFault::HalfFrameThenDrop];
+
+async fn real_transport_case(seed: u64, fault: WsFault) -> Out {
+	use futures_util::io::{BufReader, BufWriter};
+	use tokio_util::compat::TokioAsyncReadCompatExt;
+	let mut out = Out::default();
+	let mut r = Rng::new(seed);
+	let (client_io, server_io) = tokio::io::duplex(1 << 16);
+	// server side of the handshake
+	let server = tokio::spawn(async move {
+		let mut s = soketto::handshake::Server::new(BufReader::new(BufWriter::new(server_io.compat())));
+		let key = s.receive_request().await.ok()?.key();
+		s.send_response(&soketto::handshake::server::Response::Accept { key, protocol: None }).await.ok()?;
+		Some(s.into_builder().finish())
+	});
+	let url = url::Url::parse("ws://localhost:9944").expect("url");
+	let builder = jsonrpsee_client_transport::ws::WsTransportClientBuilder { max_response_size: 4096, ..Default::default() };
+	let Ok(Ok((tx, rx))) = tokio::time::timeout(Duration::from_secs(10), builder.build_with_stream(url, client_io)).await else {
+		out.violations.push(("setup-failed/ws-transport-handshake".into(), "real transport".into()));
+		return out;
+	};
+	let Ok(Some((mut s_tx, mut s_rx))) = server.await else {
+		out.violations.push(("setup-failed/ws-transport-handshake".into(), "server side".into()));
+		return out;
+	};
+	let client: Arc<SimClient> = Arc::new(jsonrpsee_core::client::async_client::ClientBuilder::default().request_timeout(REQUEST_TIMEOUT).build_with_tokio(tx, rx));
+	// operations outstanding at the fault
+	let n_pre = 1 + r.usize(3);
+	let mut tasks = Vec::new();
+	for i in 0..n_pre {
+		let kind = if r.chance(1, 4) { OpKind::Batch(2) } else if r.chance(1, 4) { OpKind::Subscribe } else { OpKind::Call };
+		tasks.push((format!("pre{i}"), kind.clone(), tokio::spawn(run_op(client.clone(), kind, format!("pre{i}")))));
+	}
+	// the server reads what arrived (and answers none of it)
+	for _ in 0..n_pre {
+		let mut data = Vec::new();
+		if tokio::time::timeout(Duration::from_secs(5), s_rx.receive_data(&mut data)).await.is_err() {
+			break;
+		}
+	}
+	out.history.push(format!("real transport, {n_pre} operation(s) outstanding, fault {fault:?}"));
+	match fault {
+		WsFault::CloseFrame => {
+			let _ = s_tx.close().await;
+		}
+		WsFault::AbruptDrop => {
+			drop(s_tx);
+			drop(s_rx);
+		}
+		WsFault::BinaryGarbage => {
+			let bytes: Vec<u8> = (0..1 + r.usize(40)).map(|_| r.below(256) as u8).collect();
+			let _ = s_tx.send_binary(&bytes).await;
+			let _ = s_tx.flush().await;
+		}
+		WsFault::TextNotJson => {
+			let _ = s_tx.send_text("surely not json").await;
+			let _ = s_tx.flush().await;
+		}
+		WsFault::UnknownId => {
+			let _ = s_tx.send_text(&ok_response(&json!(880_000_000u64 + (seed & 0xffff)), json!("nobody asked"))).await;
+			let _ = s_tx.flush().await;
+		}
+		WsFault::OversizedFrame => {
+			// larger than the client's configured max_response_size (4096)
+			let big = format!("{{\"jsonrpc\":\"2.0\",\"method\":\"n\",\"params\":[\"{}\"]}}", "x".repeat(6000 + r.usize(4000)));
+			let _ = s_tx.send_text(&big).await;
+			let _ = s_tx.flush().await;
+		}
+		WsFault::HalfFrameThenDrop => {
+			// a frame header announcing more bytes than are ever sent, then the connection goes away
+			drop(s_rx);
+			drop(s_tx);
+		}
+	}
+	// later operations
+	tokio::time::sleep(Duration::from_millis(r.below(6))).await;
+	for i in 0..1 + r.usize(2) {
+		let kind = if r.chance(1, 3) { OpKind::Notification } else { OpKind::Call };
+		tasks.push((format!("late{i}"), kind.clone(), tokio::spawn(run_op(client.clone(), kind, format!("late{i}")))));
+	}
+	let fclass = format!("real-ws-transport:{fault:?}");
+	let mut causes: Vec<String> = Vec::new();
+	for (tag, kind, t) in tasks {
+		let o = match t.await {
+			Ok(o) => o,
+			Err(e) => OpOut::Panicked(e.to_string()),
+		};
+		out.outcomes += 1;
+		match o {
+			OpOut::Ok if kind == OpKind::Notification => {}
+			OpOut::Ok => out.violations.push((format!("succeeded-after-failure/{fclass}"), format!("{tag} ({kind:?}) returned Ok although nothing was answered"))),
+			OpOut::Err(ErrKind::RestartNeeded(c)) => causes.push(c),
+			OpOut::Err(ErrKind::Custom(s)) if s.contains(PLACEHOLDER) => out.violations.push((format!("placeholder-cause/{fclass}"), format!("{tag}: {s}"))),
+			OpOut::Err(ErrKind::Timeout) => out.violations.push((format!("timeout-instead-of-cause/{fclass}"), format!("{tag} ({kind:?}) timed out although the connection had failed"))),
+			OpOut::Err(other) => out.violations.push((format!("error-without-cause/{fclass}"), format!("{tag} ({kind:?}): {other:?}"))),
+			OpOut::Stalled => out.violations.push((format!("stalled/{fclass}"), format!("{tag} ({kind:?}) still pending after request_timeout + {SLACK:?}"))),
+			OpOut::Panicked(e) => out.violations.push((format!("operation-panicked/{fclass}"), format!("{tag}: {e}"))),
+		}
+	}
+	match tokio::time::timeout(REQUEST_TIMEOUT + SLACK, client.on_disconnect()).await {
+		Ok(e) => match err_kind(&e) {
+			ErrKind::RestartNeeded(c) => causes.push(c),
+			other => out.violations.push((format!("error-without-cause/{fclass}"), format!("on_disconnect(): {other:?}"))),
+		},
+		Err(_) => out.violations.push((format!("on-disconnect-pending/{fclass}"), "on_disconnect() did not resolve".into())),
+	}
+	if client.is_connected() {
+		out.violations.push((format!("still-connected/{fclass}"), "is_connected() is true after the fault".into()));
+	}
+	out.conn_ended = !client.is_connected();
+	causes.sort();
+	causes.dedup();
+	if causes.len() > 1 {
+		out.violations.push((format!("inconsistent-causes/{fclass}"), format!("{causes:?}")));
+	}
+	if causes.iter().any(|c| c.trim().is_empty()) {
+		out.violations.push((format!("empty-cause/{fclass}"), "the cause text is empty".into()));
+	}
+	out.causes_seen = causes;
+	out
+}
+
 const HOSTILE_IDS: [&str; 12] = [
 	"0",
 	"18446744073709551615",
@@ -661,6 +798,7 @@ fn main() {
 	ev.assume("mode R (real clock): request_timeout = 300 ms; an operation still pending after 300 ms + 10 s is a stall (30x any observed completion time); no other verdict depends on wall-clock time");
 	ev.assume("expected cause text: the injected error text (nonce) for send/receive errors, 'peer closed' for a peer close, 'Unparseable message' for non-JSON text, the offending id for an unknown-id response; for hostile batch replies only: not the placeholder, consistent, no panic, no stall");
 	ev.assume("generated bytes may be ignorable: then the client must stay connected and complete everything normally");
+	ev.assume("real-transport family: the real jsonrpsee WebSocket transport over an in-memory duplex against a raw soketto server (close frame, abrupt drop, binary garbage, non-JSON text, unknown id, frame above the client's max_response_size); cause texts are transport-specific, so only: RestartNeeded, non-empty, consistent, not the placeholder, no timeout / stall / panic");
 	let mut violations = Vec::new();
 	let replay = ctx.replay.is_some();
 	let specs: Vec<Spec> = if let Some(path) = &ctx.replay {
@@ -776,6 +914,30 @@ fn main() {
 				p.message.clone(),
 				json!({"location": p.location, "backtrace": p.backtrace_head, "thread": p.thread}),
 			));
+		}
+	}
+	if !replay {
+		let n = ctx.tier.pick(40u64, 1_500);
+		let seed = ctx.seed;
+		let cases: Vec<(u64, WsFault)> = (0..n).flat_map(|i| WS_FAULTS.iter().map(move |f| (Rng::fork(seed, 91_000_000 + i).next_u64(), *f))).collect();
+		let res = run_parallel(cases, |_, (s, f)| (s, f, block_on_real(real_transport_case(s, f))));
+		for (s, f, o) in res {
+			ev.eval();
+			ev.count("real_ws_transport_cases", 1);
+			ev.count("operation_outcomes_judged", o.outcomes as u64);
+			if o.conn_ended {
+				ev.count("histories_where_the_connection_ended", 1);
+			}
+			ev.class("causes", &o.causes_seen);
+			if o.outcomes > 0 {
+				ev.nontrivial(&("real-ws", s, f));
+			}
+			if o.violations.is_empty() {
+				ev.sample_class(&format!("real-ws-transport:{f:?}"), json!({"fault": format!("{f:?}"), "causes": o.causes_seen, "history": o.history}));
+			}
+			for (sig, d) in o.violations {
+				violations.push(Violation::new(sig, d, json!({"family": "real WebSocket transport", "seed": s, "fault": format!("{f:?}"), "history": o.history})));
+			}
 		}
 	}
 	let mut inconclusive = None;
